@@ -285,7 +285,9 @@ def corner_modules():
                  ('T0', {'a': True, 'd': (b'\x80\x00', 9), 'e': b'\x10', 'f': 'e1'}),
                  ('T0', {'a': True, 'c': True, 'd': (b'\x90', 4), 'e': b'', 'f': 'x0'}),
                  ('T1', {'s': {'a': True}, 'n': None}),
-                 ('T1', {'s': {'a': True, 'b': 1}, 'n': None, 't': [{'a': False}, {'a': True, 'c': False}]})]))
+                 ('T1', {'s': {'a': True, 'b': 1}, 'n': None, 't': [{'a': False}, {'a': True, 'c': False}]}),
+                 # an error inside a present addition (missing mandatory component of an element) is raised, not swallowed
+                 ('T1', {'s': {'a': True}, 'n': None, 't': [{'b': 1}]})]))
     # SET with additions whose tags sort before / between the root components
     st = {'k': 'SET', 'root': [_m('m1', BOOL, None, ('APPLICATION', 16383, '')), _m('m2', NULL, None, ('', 0, ''))],
           'ext': [{'member': _m('a3', {'k': 'SET OF', 'elem': INT, 'size': None}, None, ('APPLICATION', 5, 'EXPLICIT'))},
@@ -305,6 +307,16 @@ def corner_modules():
                  ('T0', {'nb': (b'', 0), 'b': (b'', 0), 'o': bytes(range(200)), 'u': '', 'so': []}),
                  ('T0', {'nb': (b'\x00\x10', 13), 'b': (b'\x00', 1), 'o': bytes(256), 'u': 'x' * 130,
                          'so': [bytes(130), bytes(129), b'\x00']})]))
+    # content lengths around the short / long form boundaries (127/128, 255/256, 65535/65536), for the
+    # contents of a primitive encoding and for the contents of the enclosing constructed ones
+    wrap = {'k': 'SEQUENCE', 'root': [_m('o', OCT)], 'ext': None}
+    wrap2 = {'k': 'SEQUENCE', 'root': [_m('w', {'k': 'REF', 'name': 'T1'}, None, ('', 3, 'EXPLICIT'))], 'ext': None}
+    lens = [124, 125, 126, 127, 128, 129, 130, 251, 252, 253, 254, 255, 256, 257]
+    out.append((_mod('IMPLICIT', [('T0', dict(OCT)), ('T1', wrap), ('T2', wrap2), ('T3', dict(IA5))]),
+                [('T0', bytes(n)) for n in lens + [65535, 65536]] +
+                [('T1', {'o': bytes(n % 256 for n in range(k))}) for k in lens] +
+                [('T2', {'w': {'o': bytes(k)}}) for k in (118, 119, 120, 121, 122, 123, 124, 125, 126, 246, 247, 248, 249, 250)] +
+                [('T3', 'a' * n) for n in (127, 128, 255, 256)]))
     return out
 
 
